@@ -161,9 +161,16 @@ func newStreamPool(poolCapacity uint32) *streamPool {
 func (sm *SessionManager) Close() error {
 	sm.cancelFunc()
 	sm.wg.Wait()
+	sm.Lock()
+	defer sm.Unlock()
 	for i := 0; i < len(sm.pools); i++ {
 		sm.pools[i].close()
 	}
+	// the sessions parked by a hot restart belong to the manager as well
+	for _, p := range sm.reservePools {
+		p.close()
+	}
+	sm.reservePools = nil
 	return nil
 }
 
@@ -302,6 +309,11 @@ func handleSessionManagerHotRestart(sm *SessionManager, params interface{}) {
 
 	sm.Lock()
 	defer sm.Unlock()
+
+	if sm.ctx.Err() != nil {
+		// the manager is closed: an event still queued on the event loop must not create sessions nobody will close
+		return
+	}
 
 	hParams := params.(*sessionManagerHotRestartParams)
 	if sm.state == hotRestartState && sm.epoch != hParams.epoch {
